@@ -182,7 +182,7 @@ func runR023(c *core.Ctx) {
 			var declared []string
 			if st, ok := obj.Type().Underlying().(*types.Struct); ok {
 				for i := 0; i < st.NumFields(); i++ {
-					declared = append(declared, st.Field(i).Name())
+					declared = append(declared, core.NameOf(st.Field(i)))
 				}
 			}
 			if strings.Join(pw.fields, ",") != strings.Join(declared, ",") {
@@ -289,14 +289,14 @@ func runR024(c *core.Ctx) {
 				return true
 			}
 			cf := core.Callee(inf, call)
-			if cf == nil || cf.Pkg() == nil || cf.Pkg().Path() != restliPath || !strings.HasPrefix(cf.Name(), "Register") {
+			if cf == nil || cf.Pkg() == nil || cf.Pkg().Path() != restliPath || !strings.HasPrefix(core.NameOf(cf), "Register") {
 				return true
 			}
-			regs[cf.Name()]++
+			regs[core.NameOf(cf)]++
 			// closure: last argument
 			fl, ok := core.Unparen(call.Args[len(call.Args)-1]).(*ast.FuncLit)
 			if !ok {
-				problems = append(problems, cf.Name()+": implementation adapter is not a closure")
+				problems = append(problems, core.NameOf(cf)+": implementation adapter is not a closure")
 				return true
 			}
 			var names []*ast.Ident
@@ -318,7 +318,7 @@ func runR024(c *core.Ctx) {
 				return true
 			})
 			if rc == nil {
-				problems = append(problems, cf.Name()+": the closure does not call the resource implementation")
+				problems = append(problems, core.NameOf(cf)+": the closure does not call the resource implementation")
 				return true
 			}
 			// args: ctx (param 0), then rp.<keys> in declaration order, then remaining params in order
@@ -327,7 +327,7 @@ func runR024(c *core.Ctx) {
 				a = core.Unparen(a)
 				if i == 0 {
 					if params[core.ObjOf(inf, a)] != 0 || core.ObjOf(inf, a) != inf.Defs[names[0]] {
-						problems = append(problems, cf.Name()+": first argument is not the request context")
+						problems = append(problems, core.NameOf(cf)+": first argument is not the request context")
 					}
 					continue
 				}
@@ -337,11 +337,11 @@ func runR024(c *core.Ctx) {
 						if fv, ok := core.ObjOf(inf, sel).(*types.Var); ok {
 							idx := fieldIndex(inf.Types[sel.X].Type, fv)
 							if idx <= lastKeyIdx {
-								problems = append(problems, fmt.Sprintf("%s: path key %s is passed out of order", cf.Name(), fv.Name()))
+								problems = append(problems, fmt.Sprintf("%s: path key %s is passed out of order", core.NameOf(cf), core.NameOf(fv)))
 							}
 							lastKeyIdx = idx
 							if lastParam > 1 {
-								problems = append(problems, cf.Name()+": a path key follows a body/parameter argument")
+								problems = append(problems, core.NameOf(cf)+": a path key follows a body/parameter argument")
 							}
 							continue
 						}
@@ -353,14 +353,14 @@ func runR024(c *core.Ctx) {
 							continue
 						}
 					}
-					problems = append(problems, fmt.Sprintf("%s: argument %s is not a decoded value of this request", cf.Name(), core.ExprString(a)))
+					problems = append(problems, fmt.Sprintf("%s: argument %s is not a decoded value of this request", core.NameOf(cf), core.ExprString(a)))
 					continue
 				}
 				if pi, ok := params[core.ObjOf(inf, a)]; ok && pi >= 2 && pi >= lastParam {
 					lastParam = pi
 					continue
 				}
-				problems = append(problems, fmt.Sprintf("%s: argument %s is out of order or not a decoded value", cf.Name(), core.ExprString(a)))
+				problems = append(problems, fmt.Sprintf("%s: argument %s is out of order or not a decoded value", core.NameOf(cf), core.ExprString(a)))
 			}
 			// the closure returns the call's results
 			returned := false
@@ -381,7 +381,7 @@ func runR024(c *core.Ctx) {
 				})
 			}
 			if !returned {
-				problems = append(problems, cf.Name()+": the implementation's result is not returned")
+				problems = append(problems, core.NameOf(cf)+": the implementation's result is not returned")
 			}
 			return true
 		})
@@ -398,7 +398,7 @@ func runR024(c *core.Ctx) {
 					return true
 				}
 				for _, cn := range registerToClient {
-					if cf.Name() == cn {
+					if core.NameOf(cf) == cn {
 						clients[cn]++
 					}
 				}
@@ -488,7 +488,7 @@ func runR075(c *core.Ctx) {
 				if cf == nil || cf.Pkg() == nil || cf.Pkg().Path() != restliPath {
 					return true
 				}
-				name := strings.TrimPrefix(cf.Name(), "Register")
+				name := strings.TrimPrefix(core.NameOf(cf), "Register")
 				want, ok := specOfMethod[name]
 				if !ok {
 					return true
@@ -498,9 +498,9 @@ func runR075(c *core.Ctx) {
 				got := ""
 				for _, a := range call.Args {
 					if tv, ok := inf.Types[a]; ok {
-						if nt, ok := tv.Type.(*types.Named); ok && nt.Obj().Name() == "PathSpec" {
+						if nt, ok := tv.Type.(*types.Named); ok && core.NameOf(nt.Obj()) == "PathSpec" {
 							if o := core.ObjOf(inf, a); o != nil {
-								got = o.Name()
+								got = core.NameOf(o)
 							} else {
 								got = core.ExprString(a)
 							}
@@ -508,7 +508,7 @@ func runR075(c *core.Ctx) {
 					}
 				}
 				if got != want && got != "NoExcludedFields" {
-					problems = append(problems, fmt.Sprintf("%s passes %s, expected %s", cf.Name(), got, want))
+					problems = append(problems, fmt.Sprintf("%s passes %s, expected %s", core.NameOf(cf), got, want))
 				}
 				if got == "NoExcludedFields" {
 					if m, ok := byNS[strings.ReplaceAll(rel, "/", ".")]; ok {
@@ -517,7 +517,7 @@ func runR075(c *core.Ctx) {
 							relevant += len(m.co)
 						}
 						if relevant > 0 {
-							problems = append(problems, fmt.Sprintf("%s passes NoExcludedFields although the resource declares fields excluded for this method", cf.Name()))
+							problems = append(problems, fmt.Sprintf("%s passes NoExcludedFields although the resource declares fields excluded for this method", core.NameOf(cf)))
 						}
 					}
 				}
@@ -624,7 +624,7 @@ func runR076(c *core.Ctx) {
 				if f == nil {
 					return true
 				}
-				switch f.Name() {
+				switch core.NameOf(f) {
 				case "CheckField":
 					if len(call.Args) >= 2 {
 						if cv := core.ConstOf(inf, call.Args[1]); cv != nil {
